@@ -15,6 +15,7 @@ import z3
 from matplotlib import colors
 
 from pyvc import values as V
+from pyvc import smt
 from pyvc.values import Sym, Obj, Kind, S, lift
 from pyvc.interp import NS, RaiseSig
 from pyvc.registry import Contract, resolve
@@ -24,6 +25,9 @@ from pyvc.lib.c20_models import PArr, PMasked, Elem, fresh_parr, ext_le, ext_lt
 from .common import registry, implies, AND, OR, NOT
 
 LEVEL = "proof"
+# nonlinear real arithmetic over ground lemma instances: try `purify + nlsat` first (sound: purification only forgets facts);
+# z3's default incremental NRA is erratic on the monotonicity obligations (0.1 s or a 10 s timeout for the same goal)
+smt.PURIFY = "try"
 CN = "quantem.core.visualization.custom_normalizations"
 MOD = importlib.import_module(CN)
 Rl = z3.Real
@@ -128,7 +132,7 @@ def stretch_inv(o):
     return STRETCH[o.cls.__name__]["inv"](sparams(o))
 
 
-def stretch_interface_posts(old, new, adm=T, mono=None, strict=None):
+def stretch_interface_posts(old, new, adm=T, mono=None, strict=None, linear=False):
     """THE STRETCH INTERFACE (class independent), stated for the generic entries old[i] -> new[i] of the argument array.
     From the property: a stretch maps [0,1] into [0,1], is non-decreasing, fixes 0 and 1, a NaN stays a NaN and no NaN is
     created.  `adm` = admissibility of the configuration (only LinearStretch needs one: it must be the identity)."""
@@ -137,15 +141,18 @@ def stretch_interface_posts(old, new, adm=T, mono=None, strict=None):
     out = []
     for i, (a, b) in enumerate(zip(old, new)):
         out += [
-            (f"nan-in<=>nan-out[{i}]", b.nan == a.nan),
+            (f"nan-in=>nan-out[{i}]", implies(a.nan, b.nan)),
+            # (a general linear stretch may turn +-inf into NaN: inf * 0)
+            (f"number-in=>number-out[{i}]", implies(AND(a.number(), OR(adm, a.finite()) if linear else T), b.number())),
             (f"[0,1]-into-[0,1][{i}]", implies(AND(in01(a), adm), in01(b))),
             (f"fixes-0[{i}]", implies(AND(a.finite(), a.val == 0, adm), AND(b.finite(), b.val == 0))),
             (f"fixes-1[{i}]", implies(AND(a.finite(), a.val == 1, adm), AND(b.finite(), b.val == 1))),
         ]
     if len(old) >= 2:
         a1, a2, b1, b2 = old[0], old[1], new[0], new[1]
+        dom = AND(a1.finite(), a2.finite()) if linear else AND(a1.number(), a2.number())
         out += [
-            ("non-decreasing", implies(AND(a1.number(), a2.number(), ext_le(a1, a2), mono), AND(b1.number(), b2.number(), ext_le(b1, b2)))),
+            ("non-decreasing", implies(AND(dom, ext_le(a1, a2), mono), AND(b1.number(), b2.number(), ext_le(b1, b2)))),
             ("strictly-increasing-on-[0,1]", implies(AND(in01(a1), in01(a2), a1.val < a2.val, strict), ext_lt(b1, b2))),
         ]
     return out
@@ -159,7 +166,7 @@ def stretch_call_posts(o, old, new):
     linear = name == "LinearStretch"
     if linear:
         # general linear stretch: monotone for slope >= 0; the interface itself only for the identity configuration
-        out = stretch_interface_posts(old, new, adm=ident, mono=p["slope"] >= 0, strict=p["slope"] > 0)
+        out = stretch_interface_posts(old, new, adm=ident, mono=p["slope"] >= 0, strict=p["slope"] > 0, linear=True)
     else:
         out = stretch_interface_posts(old, new)
     for i, (a, b) in enumerate(zip(old, new)):
@@ -172,8 +179,8 @@ def stretch_call_posts(o, old, new):
                 (f"above-1->1[{i}]", implies(AND(a.number(), NOT(ident), OR(a.inf > 0, AND(a.inf == 0, a.val >= 1))), b.val == 1)),
             ]
         else:
-            cl = z3.If(a.inf > 0, 1, z3.If(a.inf < 0, 0, z3.If(a.val < 0, 0, z3.If(a.val > 1, 1, a.val))))
-            out.append((f"linear:y=slope*clip(x)+intercept[{i}]", implies(AND(a.number(), NOT(ident)), AND(b.finite(), b.val == p["slope"] * cl + p["intercept"]))))
+            # class docstring: y = slope * x + intercept  (stated on [0,1], the domain of a stretch)
+            out.append((f"linear:y=slope*x+intercept-on-[0,1][{i}]", implies(in01(a), AND(b.finite(), b.val == p["slope"] * a.val + p["intercept"]))))
     return out
 
 
@@ -1192,7 +1199,7 @@ def rt_interval(inp):
                 problems.append(f"x={xi} -> {yi} outside [0,1]")
             if lo <= hi and xi <= lo and yi != 0:
                 problems.append(f"x={xi} <= lower limit {lo} -> {yi} (expected 0)")
-            if lo < hi and xi >= hi and yi != 1:
+            if lo < hi and xi >= hi and abs(yi - 1) > tol:
                 problems.append(f"x={xi} >= upper limit {hi} -> {yi} (expected 1)")
             if lo < hi and lo <= xi <= hi and np.isfinite(xi) and abs(yi - (xi - lo) / (hi - lo)) > tol:
                 problems.append(f"x={xi} -> {yi}, affine map gives {(xi - lo) / (hi - lo)} (limits {lo}, {hi})")
